@@ -102,7 +102,7 @@ func (sh *blobShape) lenOf(x ssa.Value, recv *ssa.Parameter) string {
 
 func runC19(c *core.Ctx) {
 	runFixtures(c, "bounds", "locks")
-	c.Explain("Structural clauses of C19 decided from source: (R19.1) every slice/make whose bounds depend on a parameter in a slice-backed Blob method is entailed safe by the dominating comparisons (difference-constraint closure), and every int64 parameter of View/Slice/Set/Grow/Truncate has a 'negative => error' guard dominating all mutations; (R19.2) View/Slice select receiver data by [start:end]; (R19.3) View aliases (shares array and mutex), Slice copies into a fresh allocation; (R19.4) no interface dispatch / re-locking call while the blob mutex may be held; (R19.5) every store to the data field is followed by the atomic length mirror in the same block; (R19.6) in the js/wasm typed-array Blob every value written to the mirrored length is non-negative by guards or was accepted by a typed-array allocation (guard-set differences to blob.Bytes are listed as information only: the JS engine clamps or validates the rest), and View/Slice use subarray/slice(start,end). (R19.7) the length reads behind the guards of a slice of the mutex-guarded buffer are made inside the critical section that slices (an unlocked fast-path test repeated under the lock is accepted): a bound checked before locking is stale when another handle resizes the blob, and the slice panics instead of returning an error. (R19.8) no method of the slice-backed blob contains an explicit panic: 'cannot happen' errors of its own methods do happen when another handle resizes the blob between a length read and the call (Bytes() panicked this way). (R19.9) View and Slice of every Blob type return a blob value other than the receiver (no full-range 'return b' fast path). (R19.10) in the js/wasm blob a slice that is made the Go-side cache is not returned to the caller as well. (R19.11) no Blob method returns a package-level blob; (R19.12, js/wasm) the typed-array blob repeats each mutation on its Go-side cache with its own parameters. (R19.16, js/wasm) Truncate of the typed-array blob records a length bounded by the current length; (R19.13) no method returns with the mutex held; (R19.14) View and Slice have identical error guards. NOT claimed: byte-exact equality with a []byte model over operation sequences, aliasing after Grow reallocates, behaviour of the JS engine.")
+	c.Explain("Structural clauses of C19 decided from source: (R19.1) every slice/make whose bounds depend on a parameter in a slice-backed Blob method is entailed safe by the dominating comparisons (difference-constraint closure), and every int64 parameter of View/Slice/Set/Grow/Truncate has a 'negative => error' guard dominating all mutations; (R19.2) View/Slice select receiver data by [start:end]; (R19.3) View aliases (shares array and mutex), Slice copies into a fresh allocation; (R19.4) no interface dispatch / re-locking call while the blob mutex may be held; (R19.5) every store to the data field is followed by the atomic length mirror in the same block; (R19.6) in the js/wasm typed-array Blob every value written to the mirrored length is non-negative by guards or was accepted by a typed-array allocation (guard-set differences to blob.Bytes are listed as information only: the JS engine clamps or validates the rest), and View/Slice use subarray/slice(start,end). (R19.7) the length reads behind the guards of a slice of the mutex-guarded buffer are made inside the critical section that slices (an unlocked fast-path test repeated under the lock is accepted): a bound checked before locking is stale when another handle resizes the blob, and the slice panics instead of returning an error. (R19.8) no method of the slice-backed blob contains an explicit panic: 'cannot happen' errors of its own methods do happen when another handle resizes the blob between a length read and the call (Bytes() panicked this way). (R19.9) View and Slice of every Blob type return a blob value other than the receiver (no full-range 'return b' fast path). (R19.10) in the js/wasm blob a slice that is made the Go-side cache is not returned to the caller as well. (R19.11) no Blob method returns a package-level blob; (R19.12, js/wasm) the typed-array blob repeats each mutation on its Go-side cache with its own parameters. (R19.16, js/wasm) Truncate of the typed-array blob records a length bounded by the current length; (R19.13) no method returns with the mutex held; (R19.14) View and Slice have identical error guards. (R19.15) caller-sized allocations under the mutex run under a deferred Unlock with recover. NOT claimed: byte-exact equality with a []byte model over operation sequences, aliasing after Grow reallocates, behaviour of the JS engine.")
 	c.Assume("A5: all length reads of one receiver inside one method denote one value (sequential reading; concurrent resize between check and use is C15's matter)",
 		"A2: stdlib (sync, sync/atomic, builtin copy/append) behaves as documented; int64->int conversions do not truncate (64-bit int; the 386 target is type-checked in the thorough tier only)")
 	c.RuleDoc("R19.1", "every parameter-dependent slice/make bound in a slice-backed Blob method is entailed by dominating guards; negative => error guard per int64 parameter")
